@@ -163,6 +163,19 @@ pub fn r60_plausible() -> impl Strategy<Value = R60> {
         .prop_filter("non-zero magnitude fields", |r| (r.hdg & 0x3FF) != 0 && (r.baro & 0x1FF) != 0 && (r.ivv & 0x1FF) != 0)
 }
 
+/// Values of one aircraft as two sources with different resolution report them: TC19 (1 kt, 64 ft/min) and BDS 5,0 /
+/// 6,0 (2 kt, 32 ft/min) around 450 kt due east and +640..704 ft/min, so that a register value equals the squitter's
+/// value, its rounding, or its neighbour.
+pub fn vel_pool() -> impl Strategy<Value = Vel> {
+    (449u32..=453, 11u32..=12, 0u32..2).prop_map(|(v_ew, vr, vr_src)| Vel { sub: 1, hdr: 0, s_ew: 0, v_ew, s_ns: 0, v_ns: 1, vr_src, s_vr: 0, vr, rsv: 0, s_dif: 0, dif: 5 })
+}
+pub fn r50_pool() -> impl Strategy<Value = R50> {
+    (223u32..=226, 510i32..=513).prop_map(|(gs, track)| R50 { roll: 10, track, gs, rate: 5, tas: 220 })
+}
+pub fn r60_pool() -> impl Strategy<Value = R60> {
+    (19i32..=23, 19i32..=23).prop_map(|(baro, ivv)| R60 { hdg: 512, ias: 250, mach: 175, baro, ivv })
+}
+
 /// BDS 1,7 capability report advertising a chosen subset
 pub fn mb17(b40: bool, b50: bool, b60: bool, others: u32) -> u64 {
     let mut mb = 0u64;
